@@ -1,5 +1,6 @@
 import GoRedisModel.Proofs.Parse
 import GoRedisModel.Model.Ctor
+import GoRedisModel.Proofs.SourceFacts
 /-! # C01 — RESP values survive encode/decode unchanged; bulk payloads are binary-safe
 
 Only the property theorems and their non-vacuity examples live here; helper lemmas are in `Proofs/`. -/
@@ -112,5 +113,10 @@ example : parse 4 (enc sampleTree ++ b!"rest") = .ok sampleTree b!"rest" :=
   C01_parse_enc sampleTree (by simp [sampleTree, wf, wfs, CR, LF, maxInt, maxBulk]) 4 (by decide) _
 
 example : inInt64 (-9223372036854775808) = true ∧ inInt64 9223372036854775807 = true := by decide
+
+/-- the RESP type bytes of the current source are the model's (regenerated on every run) -/
+theorem C01_source_type_bytes :
+    Generated.typeBytes = [("arrayMessageByte", "*"), ("bulkMessageByte", "$"), ("errorMessageByte", "-"),
+    ("integerMessageByte", ":"), ("stringMessageByte", "+")] := source_type_bytes_match_model
 
 end GoRedis
